@@ -14,8 +14,14 @@ THEOREMS = ['Otel.C10.' + t for t in (
     'program_attach_detach_restores',
     'scope_open_activates_span', 'scope_release_restores_span', 'scope_release_after_program', 'scope_nested_release_reactivates',
     'thread_isolation_step', 'thread_isolation', 'ctxSpanKey_eq')]
-HARNESSES = [Harness('f_c10', ['harness/f_c10.cc'])]
+# the same harness source twice: ASan+UBSan (all programs) and ThreadSanitizer (programs rich in truly concurrent `conc` rounds);
+# the later -fno-sanitize/-fsanitize flags override vcore's BASE_FLAGS at compile and (through `libs`) at link time
+TSAN = ['-fno-sanitize=address,undefined', '-fsanitize=thread']
+HARNESSES = [Harness('f_c10', ['harness/f_c10.cc']),
+             Harness('f_c10_tsan', ['harness/f_c10.cc'], flags=TSAN, libs=['-pthread'] + TSAN)]
 H = 'f_c10'
+HT = 'f_c10_tsan'
+HARNESS_ENV = {'TSAN_OPTIONS': 'halt_on_error=1:exitcode=97:report_signal_unsafe=0'}
 RULE = ('programs of 50-400 operations (SetValue / SetValues incl. empty and duplicate-key containers / Context(kvs) / '
         'Context(k,v) / GetValue+HasKey / RuntimeContext::SetValue,GetValue / Attach / Detach in arbitrary order incl. stale, '
         'twice-attached and foreign tokens / token destruction / GetCurrent / GetCurrentSpan / Scope open, close out of order '
@@ -26,8 +32,8 @@ RULE = ('programs of 50-400 operations (SetValue / SetValues incl. empty and dup
         'scope/out-of-order-detach rounds truly concurrently over the shared contexts, each checking its own observations against '
         'the stack rule. non-trivial = a well-formed program that creates a '
         'context and attaches; distinct = distinct program line')
-TRUSTED = ['harness reads Stack::size_/base_ through `#define private public` (depth and dumps only; top is GetCurrent())',
-           'real threads are sequentialised: data-race freedom of the shared_ptr reference counts is not exercised here']
+TRUSTED = ['ThreadSanitizer / AddressSanitizer / UBSan runtimes of g++ 12', 'harness reads Stack::size_/base_ through `#define private public` (depth and dumps only; top is GetCurrent())',
+           'the program interleaving is sequentialised by a baton (an input); truly concurrent execution only inside `conc` operations']
 ASSUMPTIONS = ['a SetValues container listing a key twice: the first listed pair wins (what the constructor does); the property '
                'text does not say', 'Detach of a default-context token on an empty stack returns true and changes nothing']
 SPAN_KEY = b'active_span'
@@ -159,6 +165,7 @@ WEIGHTS = {
     'contexts': dict(set=30, setm=14, mk=4, mk1=2, get=30, rset=4, rget=4, attach=3, detach=2, cur=1, span=1),
     'stack': dict(set=4, get=2, attach=30, detach=26, drop=5, scope=6, close=5, cur=8, span=6, dump=4, rget=3),
     'scopes': dict(set=4, attach=6, detach=5, scope=28, close=24, span=22, cur=5, dump=3, rset=3),
+    'concurrent': dict(set=8, setm=2, get=4, attach=16, detach=12, drop=2, scope=8, close=6, cur=4, span=4, dump=2, conc=8),
 }
 
 
@@ -265,6 +272,11 @@ def generate(rng, tier):
     for _ in range(1500 if big else 60):
         depth = rng.choice([3, 7, 15, 31, 63, 127, 255, 256, 280, 300])
         out.append(case_of(gen_deep(rng, rng.choice([1, 2, 3]), depth), 'deep'))
+    # ThreadSanitizer build: real threads handing the baton over, and truly concurrent rounds
+    for _ in range(3000 if big else 60):
+        g = gen_program(rng, 'concurrent', rng.choice([2, 3, 3]), rng.choice([30, 60, 100]))
+        c = case_of(g, 'tsan')
+        out.append(Case(c.line, HT, c.tags))
     # small programs (many of them: every short interleaving of the stack operations matters)
     for _ in range(20000 if big else 800):
         g = gen_program(rng, rng.choice(['stack', 'scopes', 'mixed']), rng.choice([1, 2]), rng.randrange(4, 25))
@@ -466,6 +478,8 @@ CLAUSE = {'set': 'new-context-shadows-and-inherits', 'setm': 'new-context-shadow
 
 def oracle(case, out):
     if out.startswith('CRASH'):
+        if case.harness == HT:
+            return ('no-data-race (ThreadSanitizer)', out)
         return ('no-crash-or-undefined-behaviour', out)
     exp = reference(case.line)
     if exp == 'bad-op':
@@ -490,6 +504,8 @@ def oracle(case, out):
 
 
 def signature(case, out, clause):
+    if out.startswith('CRASH') and case.harness == HT:
+        return 'tsan/' + (out.split(' ', 1)[1][:60] if ' ' in out else '')
     if out.startswith('CRASH'):
         return 'crash/' + out.split(' ', 1)[1][:80] if ' ' in out else 'crash'
     return clause
